@@ -32,8 +32,11 @@ ASSUMPTIONS = [
     "with --debug an exception leaving main() (a traceback in a real process) is allowed; without it, it counts as a traceback",
 ]
 
-DOCS = ['{"a": [1, 2, {"a": 3}], "arr": [[1], [1, 2]], "a b": "sp", "\\u00e9": "acute", "s": "x"}', "[1, 2, [3, {\"a\": 4}]]", '{"a":']
-QUERIES = ["$.a", "$..a", "$[?@.a]", "$.arr[?length(@) == 1]", "$['\\u0061']", "$[?length(@.*) == 1]", "", "$.*", "$.nope",
+DOCS = ['{"a": [1, 2, {"a": 3}], "arr": [[1], [1, 2]], "a b": "sp", "\\u00e9": "acute", "s": "x"}', "[1, 2, [3, {\"a\": 4}]]", '{"a":',
+        # byte-level forms: UTF-8 with BOM, UTF-16, invalid UTF-8, non-finite numbers
+        b'\xef\xbb\xbf{"a": [1, "\xc3\xa9"], "s": "x"}', '{"a": [1, "\u00e9"], "s": "x"}'.encode("utf-16"), b'{"a": "\xff\xfe\xfd"}',
+        '{"a": [1e999, -1e999], "s": "x"}']
+QUERIES = ["$.a", "$\n.a\n[0]", "$[\n'a',\n's'\n]", "$..a", "$[?@.a]", "$.arr[?length(@) == 1]", "$['\\u0061']", "$[?length(@.*) == 1]", "", "$.*", "$.nope",
            "$[", "$[?count(1) == 1]", "$[?nosuch(@)]", "$[9007199254740992]"]
 POINTERS = ["/a/0", "", "/arr/1/0", "/a%20b", "/a b", "/\\u00e9", "/zz", "/a/9", "a", "/s/0"]
 PATCHES = ['[{"op": "add", "path": "/b", "value": 1}]', '[{"op": "remove", "path": "/a/0"}]', "[]",
@@ -123,6 +126,8 @@ def library(case):
 
     doc_text = DOCS[case["doc"]]
     try:
+        if isinstance(doc_text, bytes):
+            json.loads(doc_text)  # undecodable bytes: UnicodeDecodeError (a ValueError) = an undecodable document
         if case["cmd"] == "path":
             env = jsonpath.JSONPathEnvironment(unicode_escape=not case["nue"], well_typed=not case["ntc"])
             p = env.compile(case["expr"].strip())
@@ -138,7 +143,7 @@ def library(case):
             return ("rejected", "not-a-list")
         pobj = jsonpath.JSONPatch(patch, unicode_escape=not case["nue"], uri_decode=case["uri"])
         return ("ok", pobj.apply(json.loads(doc_text)))
-    except (JSONPathError, JSONPointerError, JSONPatchError, json.JSONDecodeError) as e:
+    except (JSONPathError, JSONPointerError, JSONPatchError, json.JSONDecodeError, UnicodeDecodeError) as e:
         return ("rejected", type(e).__name__)
     except Exception as e:  # noqa: BLE001
         # the library itself neither accepts nor properly rejects this input (e.g. an ill-typed query evaluated with
@@ -179,8 +184,8 @@ def build_argv(case, tmp, n):
         argv += ["-r", ef]
     if case["ffile"]:
         df = os.path.join(tmp, "doc%d.json" % n)
-        with open(df, "w") as f:
-            f.write(doc_text)
+        with open(df, "wb") as f:
+            f.write(doc_text if isinstance(doc_text, bytes) else doc_text.encode("utf-8"))
         argv += ["-f", df]
     else:
         stdin_text = doc_text
@@ -206,7 +211,8 @@ def run_inprocess(argv, stdin_text):
     old = (sys.argv, sys.stdin, sys.stdout, sys.stderr)
     out, err = io.StringIO(), io.StringIO()
     sys.argv = ["json"] + argv
-    sys.stdin = io.TextIOWrapper(io.BytesIO(stdin_text.encode("utf-8")), encoding="utf-8")
+    raw = stdin_text if isinstance(stdin_text, bytes) else stdin_text.encode("utf-8")
+    sys.stdin = io.TextIOWrapper(io.BytesIO(raw), encoding="utf-8", errors="surrogateescape")
     sys.stdout, sys.stderr = out, err
     status = 0
     escaped = None
@@ -226,7 +232,7 @@ def run_inprocess(argv, stdin_text):
 def run_process(argv, stdin_text):
     env = dict(os.environ)
     env["PYTHONPATH"] = REPO
-    r = subprocess.run([sys.executable, "-m", "jsonpath"] + argv, input=stdin_text.encode("utf-8"), capture_output=True,
+    r = subprocess.run([sys.executable, "-m", "jsonpath"] + argv, input=stdin_text if isinstance(stdin_text, bytes) else stdin_text.encode("utf-8"), capture_output=True,
                        cwd=REPO, env=env, timeout=60)
     err = r.stderr.decode("utf-8", "replace")
     escaped = None
@@ -237,6 +243,11 @@ def run_process(argv, stdin_text):
 
 def _check(case, acc, tmp, real=False, record=True):
     _N[0] += 1
+    if isinstance(DOCS[case["doc"]], bytes) and not case["ffile"]:
+        # byte-level document forms are given with -f only: standard input is a text stream decoded by the interpreter
+        if record:
+            acc.count("skipped.bytes-on-stdin")
+        return
     exp = library(case)
     if exp[0] == "library-crash":
         if record:
